@@ -281,3 +281,147 @@ def group_driver(name):
 
 for _n in H_CALLS:
     group_driver(_n)
+
+
+# ---- C04: grouping partitions the rows (aggregate / split / count / grouped modify against the relational definition) ----
+from .df import is_missing as _is_missing, enc as _enc, dec as _dec
+
+_GPOOLS = {
+    "int": [0, -1, -2, 2 ** 53, 2 ** 53 + 1], "float": [0.0, -0.0, float("inf"), float("-inf"), float("nan"), 0.5],
+    "str": ["", "a", "b"], "date": [np.datetime64("2020-01-02"), np.datetime64("NaT", "D"), np.datetime64("2019-01-01")],
+    "bool": [True, False], "obj": [None, 1, 2],
+}
+_GDT = {"int": int, "float": float, "str": str, "date": "datetime64[D]", "bool": bool, "obj": object}
+
+
+def _same_key(a, b):
+    return all((_is_missing(x) and _is_missing(y)) or (not _is_missing(x) and not _is_missing(y) and bool(x == y)) for x, y in zip(a, b))
+
+
+def _key_before(a, b):
+    """lexicographic, missing last"""
+    for x, y in zip(a, b):
+        if _same_key((x,), (y,)):
+            continue
+        if _is_missing(x):
+            return False
+        if _is_missing(y):
+            return True
+        return bool(x < y)
+    return False
+
+
+def _group_inputs(run):
+    n = 4 if run.tier == "thorough" else 3
+    for k1 in _GPOOLS:
+        for rows in range(n + 1):
+            for c1 in itertools.product(range(len(_GPOOLS[k1])), repeat=rows):
+                yield [k1], [list(c1)]
+    for k1, k2 in (("int", "str"), ("float", "date"), ("str", "float")):
+        for rows in range(min(n, 3) + 1):
+            for c1 in itertools.product(range(2), repeat=rows):
+                for c2 in itertools.product(range(len(_GPOOLS[k2])), repeat=rows):
+                    yield [k1, k2], [list(c1), list(c2)]
+    # larger tie-heavy frames (an unstable sort only shows beyond ~16 rows): 40 rows, 3 key values, fixed pseudo-random order
+    import random
+    for k1 in ("int", "float", "str", "bool"):
+        for seed_ in range(3):
+            rnd = random.Random(1000 + seed_)
+            yield [k1], [[rnd.randrange(min(3, len(_GPOOLS[k1]))) for _ in range(40)]]
+
+
+def _mk_group_frame(kinds, cols):
+    d = {}
+    for t, (k, idx) in enumerate(zip(kinds, cols)):
+        d[f"g{t}"] = Vector([_GPOOLS[k][i] for i in idx], _GDT[k])
+    n = len(cols[0])
+    d["i"] = Vector(list(range(n)), int)
+    d["v"] = Vector([float(i % 3) for i in range(n)], float)
+    return DataFrame(**d)
+
+
+def _classes(df, by):
+    """relational definition: classes of 'equal group key' in order of first appearance, members in original order"""
+    keys = [tuple(df[b][r] for b in by) for r in range(df.nrow)]
+    classes = []
+    for r, k in enumerate(keys):
+        for c in classes:
+            if _same_key(c[0], k):
+                c[1].append(r)
+                break
+        else:
+            classes.append((k, [r]))
+    return classes
+
+
+def _sorted_classes(classes):
+    out = []
+    for c in classes:          # insertion sort by key (stable)
+        pos = len(out)
+        for t, o in enumerate(out):
+            if _key_before(c[0], o[0]):
+                pos = t
+                break
+        out.insert(pos, c)
+    return out
+
+
+def _c04_driver(name, body):
+    @driver("dataiter/data_frame.py::DataFrame." + name)
+    def _d(run):
+        run.bound = ("12 tie-heavy frames of 40 rows; frames of <= 3 (thorough: 4) rows in every order, one group column over each of int (incl. -1, -2, 2**53, 2**53+1), float (0.0, -0.0, "
+                     "+-inf, NaN), str (''), date (NaT), bool, object (None), and two group columns (int x str, float x date, str x float)")
+        for kinds, cols in run.inputs(_group_inputs(run)):
+            df = _mk_group_frame(kinds, cols)
+            by = [f"g{t}" for t in range(len(kinds))]
+            exp = _sorted_classes(_classes(df, by))
+            try:
+                ok, obs = body(df, by, exp)
+            except Exception as e:
+                ok, obs = False, f"raised {type(e).__name__}: {e}"
+            run.check([kinds, cols], ok, expected=[[list(map(repr, k)), m] for k, m in exp], got=obs, clause=name)
+    return _d
+
+
+def _agg_body(df, by, exp):
+    got = df.copy().group_by(*by).aggregate(n=lambda x: x.nrow, ids=lambda x: "-".join(str(t) for t in x.i), m=di.mean("v"),
+                                            m2=lambda x: di.mean(x.v), c=di.count(), f=di.first("i"))
+    obs = {c: list(got[c]) for c in got.colnames}
+    ok = got.nrow == len(exp) and got.colnames == by + ["n", "ids", "m", "m2", "c", "f"]
+    for t, (k, members) in enumerate(exp):
+        if not ok:
+            break
+        ok = _same_key(tuple(got[b][t] for b in by), k) and got.n[t] == len(members) and got.ids[t] == "-".join(map(str, members))
+        ok = ok and got.c[t] == len(members) and got.f[t] == members[0]
+        ok = ok and ((got.m[t] != got.m[t] and got.m2[t] != got.m2[t]) or got.m[t] == got.m2[t])
+    ok = ok and sum(got.n) == df.nrow
+    return ok, obs
+
+
+def _split_body(df, by, exp):
+    got = df.split(*by)
+    obs = [list(map(int, x)) for x in got]
+    return obs == [m for k, m in exp] and sorted(i for x in obs for i in x) == list(range(df.nrow)), obs
+
+
+def _count_body(df, by, exp):
+    got = df.count(*by)
+    obs = {c: list(got[c]) for c in got.colnames}
+    ok = got.nrow == len(exp) and all(_same_key(tuple(got[b][t] for b in by), k) and got.n[t] == len(m) for t, (k, m) in enumerate(exp))
+    return ok and sum(got.n) == df.nrow and list(df.i) == list(range(df.nrow)), obs
+
+
+def _modify_body(df, by, exp):
+    got = df.copy().group_by(*by).modify(size=lambda x: np.repeat(x.nrow, x.nrow), rank=lambda x: x.i - (x.i.min() if x.nrow else 0), first=lambda x: x.i[0] if x.nrow else x.i)
+    obs = {c: list(got[c]) for c in ("i", "size", "rank", "first")} if got.nrow == df.nrow else "wrong number of rows"
+    ok = got.nrow == df.nrow and list(got.i) == list(range(df.nrow))
+    for k, members in exp:
+        for r in members:
+            ok = ok and got["size"][r] == len(members) and got["first"][r] == members[0] and got["rank"][r] == r - members[0]
+    return ok, obs
+
+
+_c04_driver("aggregate[partition]", _agg_body)
+_c04_driver("split[partition]", _split_body)
+_c04_driver("count[partition]", _count_body)
+_c04_driver("modify[grouped]", _modify_body)
